@@ -558,7 +558,14 @@ func (e *Enc) zero(t types.Type) Term {
 		_, local, _ := e.p.structSortName(t)
 		if !local {
 			srt := e.sortOf(t)
-			return e.declare("zero_"+string(srt), srt)
+			z := e.declare("zero_"+string(srt), srt)
+			// the zero reflect.Value is the invalid one (library fact)
+			if srt == "X_reflect_Value" && !e.decl["zerorv"] {
+				e.decl["zerorv"] = true
+				e.declareFun("pure_RVKind", []Sort{srt}, SInt)
+				e.assert(Eq(App(SInt, "pure_RVKind", z), IntLit(0)))
+			}
+			return z
 		}
 		var fs []Term
 		for i := 0; i < u.NumFields(); i++ {
